@@ -167,6 +167,7 @@ type vC04Sc struct {
 	Settle     time.Duration // virtual time to wait after the search ended (corrective puts)
 	StoreFail  float64       // fraction of peers failing PUT_VALUE
 	NoCancel   bool
+	WalkAway   bool // C06: the caller cancels the call's context as soon as the search has returned ("defer cancel()"), before Settle
 }
 
 var vC04RemoteKinds = []struct {
@@ -461,13 +462,20 @@ func vC04Run(t *testing.T, c *vh.Case, sc vC04Sc) *vC04Res {
 		ch, err := n.D.SearchValue(lctx, sc.Key, opts...)
 		res.Err = err
 		if err == nil {
+			synctest.Wait() // the consumer is not there yet when the search offers its first value (no virtual time passes)
 			for v := range ch { // immediate consumer: no virtual time passes between offer and receipt
 				res.Emis = append(res.Emis, vC04Emission{VT: time.Now(), Val: v})
+				// ... but it is not receiving at every moment: let everything else run until it blocks (still no
+				// virtual time), so a value offered at this very instant finds the consumer busy
+				synctest.Wait()
 			}
 		}
 		res.Close = time.Now()
 	}
 	res.Cancelled = ctx.Err() != nil
+	if sc.WalkAway {
+		cancel() // the search is over and the caller is done with its context; what the node still owes (corrective puts) must not depend on it
+	}
 	if sc.Settle > 0 && !res.Cancelled {
 		time.Sleep(sc.Settle)
 	}
